@@ -18,7 +18,12 @@ pub struct B(pub String);
 
 #[derive(Interface, Clone)]
 #[graphql(field(name = "id", ty = "ID"), field(name = "label", ty = "Option<Result<String>>"), field(name = "peer", ty = "Option<Result<Node>>"))]
-pub enum Node { A(A), B(B) }
+pub enum Node { Entity(Entity) }
+
+/// interface inheritance: Entity implements Node, A and B implement both
+#[derive(Interface, Clone)]
+#[graphql(field(name = "id", ty = "ID"), field(name = "label", ty = "Option<Result<String>>"), field(name = "peer", ty = "Option<Result<Node>>"))]
+pub enum Entity { A(A), B(B) }
 
 #[derive(Union, Clone)]
 pub enum U { A(A), B(B) }
@@ -34,7 +39,7 @@ fn path_of(ctx: &Context<'_>) -> J {
     }
 }
 
-pub const ALL_FIELD_NAMES: &[&str] = &["id", "label", "peer", "n", "nn", "f", "fnn", "e", "self", "selfNN", "kids", "kidsNN", "opt", "u", "fail", "guarded", "arg", "b", "a", "ann", "node", "nodes", "us", "bump", "bumpA"];
+pub const ALL_FIELD_NAMES: &[&str] = &["id", "label", "peer", "n", "nn", "f", "fnn", "e", "self", "selfNN", "kids", "kidsNN", "opt", "u", "fail", "guarded", "arg", "b", "a", "ann", "node", "nodes", "us", "bump", "bumpA", "entity"];
 
 pub fn views(ctx: &Context<'_>) -> J {
     // selection-field view: names (with aliases) of the direct sub-fields, fragments followed
@@ -86,7 +91,8 @@ impl FromW for Color { fn from_w(w: &J) -> Result<Self> { if is_err(w) { return 
 impl FromW for A { fn from_w(w: &J) -> Result<Self> { if is_err(w) { return Err("boom".into()); } w["id"].as_str().map(|s| A(s.to_string())).ok_or_else(|| Error::new("harness: bad ref")) } }
 impl FromW for B { fn from_w(w: &J) -> Result<Self> { if is_err(w) { return Err("boom".into()); } w["id"].as_str().map(|s| B(s.to_string())).ok_or_else(|| Error::new("harness: bad ref")) } }
 fn ref_type(w: &J) -> &str { w["ty"].as_str().unwrap_or("") }
-impl FromW for Node { fn from_w(w: &J) -> Result<Self> { if is_err(w) { return Err("boom".into()); } match ref_type(w) { "A" => Ok(Node::A(A::from_w(w)?)), "B" => Ok(Node::B(B::from_w(w)?)), _ => Err(Error::new("harness: bad node ref")) } } }
+impl FromW for Node { fn from_w(w: &J) -> Result<Self> { if is_err(w) { return Err("boom".into()); } match ref_type(w) { "A" => Ok(Node::Entity(Entity::A(A::from_w(w)?))), "B" => Ok(Node::Entity(Entity::B(B::from_w(w)?))), _ => Err(Error::new("harness: bad node ref")) } } }
+impl FromW for Entity { fn from_w(w: &J) -> Result<Self> { if is_err(w) { return Err("boom".into()); } match ref_type(w) { "A" => Ok(Entity::A(A::from_w(w)?)), "B" => Ok(Entity::B(B::from_w(w)?)), _ => Err(Error::new("harness: bad entity ref")) } } }
 impl FromW for U { fn from_w(w: &J) -> Result<Self> { if is_err(w) { return Err("boom".into()); } match ref_type(w) { "A" => Ok(U::A(A::from_w(w)?)), "B" => Ok(U::B(B::from_w(w)?)), _ => Err(Error::new("harness: bad union ref")) } } }
 
 /// nullable position: null -> None, err -> Some(Err), value -> Some(Ok)
@@ -160,6 +166,7 @@ pub struct Query;
 impl Query {
     async fn node(&self, ctx: &Context<'_>) -> Option<Result<Node>> { opt(&resolve(ctx, "root", "node").await) }
     async fn nodes(&self, ctx: &Context<'_>) -> Result<Vec<Result<Node>>> { list_nn(&resolve(ctx, "root", "nodes").await) }
+    async fn entity(&self, ctx: &Context<'_>) -> Option<Result<Entity>> { opt(&resolve(ctx, "root", "entity").await) }
     async fn a(&self, ctx: &Context<'_>) -> Option<Result<A>> { opt(&resolve(ctx, "root", "a").await) }
     async fn ann(&self, ctx: &Context<'_>) -> Result<A> { req(&resolve(ctx, "root", "ann").await) }
     async fn u(&self, ctx: &Context<'_>) -> Option<Result<U>> { opt(&resolve(ctx, "root", "u").await) }
